@@ -9,7 +9,7 @@ def gen(rng, tier):
     nctx = 6 if tier == "quick" else 12
     for nil_ne in (True, False):
         sch = lg.Scheme(lg.RICH_FIELDS, lg.RICH_FNS, [], nil_ne)
-        g = lg.Gen(rng, sch, features=("index", "each", "quant", "oneof", "call", "vec"), max_depth=3)
+        g = lg.Gen(rng, sch, features=("index", "each", "quant", "oneof", "call", "vec", "mapbool"), max_depth=3)
         for _ in range(n // 2):
             ast = g.gen_filter()
             ctxs = [lg.gen_ctx(rng, sch, p_absent=rng.choice([0.0, 0.2, 0.5])) for _ in range(nctx)]
@@ -31,7 +31,7 @@ def distribution(lines):
 PROP = {
     "id": "C03",
     "prop_file": "theories/Props/C03.v",
-    "proof_files": [],
+    "proof_files": ["theories/Proofs/FullProofs.v", "theories/Proofs/CallProofs.v", "theories/Proofs/FunsProofs.v", "theories/Proofs/ExecProofs.v", "theories/Proofs/IndexProofs.v", "theories/Proofs/ValueProofs.v", "theories/Proofs/ScalarProofs.v"],
     "gen": gen,
     "normalize": norm_exec,
     "nontrivial": nontrivial,
